@@ -52,7 +52,7 @@ class PipeEnd:
         w = self.world
         with w.cv:
             if self.tx.closed or self.rx.closed:
-                raise EOFError()
+                raise OSError("Socket is closed")  # what Channel.send() raises on a closed channel
             self.tx.buf += data
             self.tx.total += len(data)
             if self.sent_log is not None:
@@ -219,6 +219,9 @@ def make_memfs():
                 fs.budget_hit = True
                 raise RuntimeError("pv: read budget exhausted (unbounded read loop)")
             fault = fs.read_fault(self.path, self.nreads - 1, offset, length) if fs.read_fault else None
+            if fault == "HANGUP":
+                fs.hangup()
+                raise RuntimeError("pv: the session was dropped while this request was being served")
             if fault is not None:
                 return fault
             return SFTPHandle.read(self, offset, length)
@@ -227,6 +230,9 @@ def make_memfs():
             idx = self.nwrites
             self.nwrites += 1
             fault = self.fs.write_fault(self.path, idx, offset, data) if self.fs.write_fault else None
+            if fault == "HANGUP":
+                self.fs.hangup()
+                raise RuntimeError("pv: the session was dropped while this request was being served")
             if fault is not None:
                 return fault
             return SFTPHandle.write(self, offset, data)
@@ -272,6 +278,7 @@ def make_memfs():
             fs.stat_fault = None
             fs.force = None
             fs.links = {}
+            fs.hangup = lambda: None
             cls.instance = fs
             return fs
 
@@ -438,6 +445,7 @@ class ThreadedSession:
             self.send_.sent_log = []
         self.server = SFTPServer(self.send_, "sftp", None, self.MemFS)
         self.server_exc = None
+        self.fs.hangup = self.send_.close  # "the server hangs up": both directions of the channel are closed
 
         def serve():
             try:
@@ -663,6 +671,8 @@ class _DetSock:
         if self.hdr_pending:
             s._on_recv_header()
         if not self.s2c:
+            if s.dropped:
+                return b""  # the channel is gone: EOF
             raise InfraError("deterministic session: recv on an empty queue after scheduling")
         out = bytes(self.s2c[:n])
         del self.s2c[:n]
@@ -698,6 +708,8 @@ class _SrvSock:
         self.sess = sess
 
     def send(self, data):
+        if self.sess.dropped:
+            raise OSError("Socket is closed")
         self.sess.sock.s2c += bytes(data)
         self.sess._srv_out.append(bytes(data))
         return len(data)
@@ -745,6 +757,7 @@ class DetSession:
         self.cur = None
         self.abort = False
         self.base = 0
+        self.dropped = False
         self.last_serve = None
         self.server = SFTPServer(_SrvSock(self), "sftp", None, self.MemFS)
         self.server.sock = _SrvSock(self)
@@ -786,7 +799,7 @@ class DetSession:
         from paramiko.sftp import SFTP_FAILURE, CMD_INIT
 
         buf = self.sock.c2s
-        if len(buf) < 4:
+        if self.dropped or len(buf) < 4:
             return False
         size = struct.unpack(">I", bytes(buf[:4]))[0]
         if len(buf) < 4 + size:
@@ -840,6 +853,8 @@ class DetSession:
 
     def _on_send(self, data):
         task = self._task()
+        if self.dropped:
+            raise OSError("Socket is closed")
         if task is None or not self.tracing:
             self.sock.c2s += data
             return
@@ -862,6 +877,8 @@ class DetSession:
         task = self._task()
         if task is None or not self.tracing:
             while len(self.sock.s2c) < 4:
+                if self.dropped:
+                    return
                 if not self._serve_one():
                     raise Hang("client waits for a response and no request is outstanding")
             return
